@@ -319,7 +319,7 @@ def gen_cases(chk):
     n_tlc = len(cases)
     bnd = boundary_cases()
     cases += bnd
-    nrand = 500 if quick else 20000
+    nrand = 800 if quick else 20000
     for k in range(nrand):
         big = (not quick) and k % 200 == 0
         cases.append(random_case(rng, 150 if big else rng.randint(1, 40), controls=(k % 4 == 3)))
